@@ -180,7 +180,7 @@ theorem print_default_conversions (raw bits : Nat) (str : Bytes) :
   refine ⟨rfl, rfl, ?_, ?_, rfl, ?_, ?_, ?_⟩
   · simp [valText, formatOne, fmtUnsigned, unsignedArg, LenMod.bits, precDigits, padField]
   · simp [valText, formatOne, fmtUnsigned, unsignedArg, LenMod.bits, precDigits, padField]
-  · simp [valText, formatOne, padField]
+  · simp [valText, formatOne, padField, charBody]
   · simp [valText, formatOne, padField, strArg]
   · have hn : ascii "(nil)" = [40, 110, 105, 108, 41] := by decide
     simp [valText, formatOne, padField, hn]
@@ -209,8 +209,11 @@ example : genFormat convTextNF 12 [37, 43, 46, 51, 100, 32, 37, 35, 111, 32, 37,
     some [43, 48, 48, 55, 32, 48, 49, 48, 32, 65] := by   -- "%+.3d %#o %c" 7 8 'A' = "+007 010 A"
   simp [genFormat, splitLiteral, scanSpec, scanFlags, isDigit, scanNat, scanLen, resolve, argFits, convTextNF, convText,
     formatOne, fmtSigned, fmtUnsigned, signedArg, unsignedArg, LenMod.bits, signBytes, precDigits, padField, natDigits,
-    digitChar, isFloatConv]
+    digitChar, isFloatConv, charBody]
 
+-- `%lc` of U+20AC in a field of five, left justified: the three bytes of its UTF-8 form, then two spaces
+example : formatOne { conv := 'c', len := .l, width := 5, flags := { dash := true } } (.int 0x20AC) =
+    some [0xE2, 0x82, 0xAC, 32, 32] := by decide
 -- the most negative value and zero with precision zero
 example : fmtSigned { conv := 'd', len := .ll } (2 ^ 63) = ascii "-9223372036854775808" := by
   simp [fmtSigned, signedArg, LenMod.bits, signBytes, precDigits, padField, natDigits, digitChar, ascii]
